@@ -205,3 +205,10 @@ package daemon
 //@ # record whose replay releases again; the reverse order would leak the address)
 //@ guard call deletePodResource in ReleaseIP: !c05relerr
 //@ # ADD: the reply is sent only after the record was written (postcondition of AllocIP above: result1 == nil ==> c04put)
+
+//@ for C09
+//@ # ---- kernel rule cleanup tolerates a missing interface: a record whose ENI is no longer attached can still be collected ----
+//@ ghost c09deverr error
+//@ func gcPolicyRoutes
+//@   at call link.GetDeviceNumber: ghost c09deverr = result1
+//@   ensures c09deverr != nil && errIs(c09deverr, link.ErrNotFound) ==> result == nil
